@@ -1487,6 +1487,7 @@ sc_options_parse (int package_id, int err_priority, sc_options_t * opt,
 
   lo = longopts;
   position = 0;
+  optstring[0] = '\0';          /* stays empty when no option has a short name */
   for (iz = 0; iz < count; ++iz) {
     item = (sc_option_item_t *) sc_array_index (items, iz);
     if (item->opt_char != '\0') {
